@@ -6,7 +6,7 @@
    compares the real ending with the model's; the search oracle mutates valid
    command lines.  PARTIAL: the table is a transcription of main, not a
    translation; "the report contains only finite numbers" rests on the explicit
-   finiteness guards (modelled as stage 18/19 faults) and on C19; running time
+   finiteness guards (modelled as stage 19/20 faults) and on C19; running time
    and memory for huge but finite sizes are not decided. *)
 From Coq Require Import List Bool Arith Reals.
 From PM Require Import Base.Num Base.RNum Gen.Extracted Model.Main Proofs.MainP.
